@@ -41,6 +41,7 @@ def make_case(r):
         rules = realrun.simple_spec(
             f'count:{t}>={k} count:{t}>={k + 2} ! & hash:2:0 |')
     chain = None
+    set_digests = None
     if r.random() < 0.3:
         # dependency chain: command d_i can only be removed after d_{i+1}
         # (a later BFS node) is gone, so a sweep that found a reduction has
@@ -133,6 +134,34 @@ def make_case(r):
                 f'ntok>={8 if simple else r.randint(ntok // 4, ntok // 2)} &')
         rules = realrun.simple_spec(pred)
         chain = 'indexed'
+    if chain is None and r.random() < 0.1:
+        # The last step of the ddmin phase is a leaf-for-leaf substitution
+        # that puts one node at several places (a symbol renamed everywhere)
+        # and removes no expression; the hierarchical phase starts from that
+        # input and has to find the replacement of the renamed symbol by a
+        # constant (judged by a fresh process: second run)
+        old_name, new_name = r.choice([('ab', 'a'), ('xy', 'x'),
+                                       ('ab', 'b'), ('k10', 'k1')])
+        c = r.choice(['5', '7', '12'])
+        two = r.random() < 0.5
+
+        def script(name, first, second):
+            t = f'(declare-const {name} Int)\n(assert (> {first} {c}))\n'
+            if two:
+                t += f'(assert (< {second} {c}))\n'
+            return t
+
+        text = script(old_name, old_name, old_name)
+        # the command knows exactly these inputs (a whitelist, so that the
+        # order of the steps is forced: rename first, constants afterwards)
+        white = [text, script(new_name, new_name, new_name),
+                 script(new_name, '0', new_name),
+                 script(new_name, new_name, '0'),
+                 script(new_name, '0', '0')]
+        set_digests = sorted({refreader.token_digest(t) for t in white})
+        rules = [realrun.rule('set:@SETFILE@', 1, 'bug\n', ''),
+                 realrun.rule('all', 0, 'ok\n', '')]
+        chain = 'rename'
     if chain is None and r.random() < 0.15:
         # A proposal that only the first (prelude) pass can make - binary
         # reduction restricted to assert commands - becomes applicable after
@@ -163,8 +192,10 @@ def make_case(r):
         rules = realrun.simple_spec(pred)
         chain = 'prelude'
     strat = r.choice(['hierarchical', 'hybrid'])
-    if chain and chain != 'indexed':
+    if chain and chain not in ('indexed', 'rename'):
         strat = 'hierarchical'
+    if chain == 'rename':
+        strat = 'hybrid'
     j = r.choice([1, 2, 4, 8])
     slow_accept = False
     if chain == 'late':
@@ -188,7 +219,7 @@ def make_case(r):
     toggles = []
     if chain == 'prelude':
         groups = [f'--no-{g}' if g != 'core' else '--core' for g in GROUPS]
-    elif chain and chain != 'indexed' and r.random() < 0.5:
+    elif chain and chain not in ('indexed', 'rename') and r.random() < 0.5:
         groups = [f'--no-{g}' for g in GROUPS] + ['--erase-node']
         if chain == 'string':
             groups += ['--str-constants']
@@ -211,6 +242,7 @@ def make_case(r):
         inj = None
         delay = None
     return text, rules, opts, inj, delay, {
+        'set_digests': set_digests if chain == 'rename' else None,
         'input': text, 'rules': rules, 'strategy': strat, 'jobs': j,
         'inject': inj, 'delay': delay, 'mutator_options': groups + toggles,
         'chain': chain, 'slow_accept': slow_accept}
@@ -229,6 +261,12 @@ def run_case(res, base, case, idx, second_run):
     if inj:
         cfg['delay'] = inj
     wd = os.path.join(base, f'c{idx}')
+    if desc.get('set_digests'):
+        os.makedirs(wd, exist_ok=True)
+        setfile = os.path.join(wd, 'set.txt')
+        with open(setfile, 'w') as f:
+            f.write('\n'.join(desc['set_digests']) + '\n')
+        rules = [x.replace('@SETFILE@', setfile) for x in rules]
     run = realrun.run_ddsmt(wd, text, rules, opts=opts, launcher=cfg,
                             delay=delay)
     res.count('evaluations')
@@ -277,7 +315,7 @@ def run_case(res, base, case, idx, second_run):
                 f'({a["kind"]}) at node {a["node"]!r} is still accepted by '
                 f'the command', witness)
             return
-        if (second_run or desc.get('chain') == 'indexed') and \
+        if (second_run or desc.get('chain') in ('indexed', 'rename')) and \
                 run.out_bytes is not None:
             res.count('second_runs')
             groups = [o for o in desc['mutator_options']]
